@@ -506,6 +506,7 @@ type SpecFunc struct {
 	Result string
 	Body   *SExpr // nil => uninterpreted
 	File   string
+	Pkg    string // id of the package whose contract file declares it
 }
 
 type Contract struct {
@@ -667,7 +668,7 @@ func (cs *ContractSet) LoadContractText(text, path, pkgName string) error {
 			if close < 0 {
 				return fail(i, fmt.Errorf("bad spec func params"))
 			}
-			sf := &SpecFunc{Name: name, File: path}
+			sf := &SpecFunc{Name: name, File: path, Pkg: pkgName}
 			for _, prm := range splitTop(r[open+1:close], ',') {
 				prm = strings.TrimSpace(prm)
 				if prm == "" {
